@@ -228,7 +228,9 @@ class Acct:
         sp = self.stripped(pl)
         if sp is not None:
             s_op, n = sp
-            return ladd(self.str_len_op(s_op, roots), lin(n), -1)
+            return ladd(self.str_len_op(s_op, roots), n if isinstance(n, dict) else lin(n), -1)
+        if getattr(self, "_sym_roots", None) is not None:
+            return lin(**{"s#%s" % key: 1})
         raise Undecidable("length of %s" % key)
 
     def stripped(self, pl):
@@ -248,6 +250,13 @@ class Acct:
             n = len(c.encode())
         elif isinstance(c, int) and 0 <= c < 0x110000:
             n = len(chr(c).encode())
+        elif getattr(self, "_sym_roots", None) is not None:
+            # a pattern that is itself a string of unknown length (`comment.strip_prefix(prefix)`): the
+            # payload is shorter by exactly len(pattern)
+            try:
+                n = self.str_len_op(t["args"][1], self._sym_roots)
+            except Undecidable:
+                return None
         else:
             return None
         return t["args"][0], n
@@ -276,6 +285,8 @@ class Acct:
             return lin(**{roots[key]: 1})
         d = self.whole_def(l)
         if d is None:
+            if getattr(self, "_sym_roots", None) is not None:
+                return lin(**{"s#%s" % key: 1})         # some string of unknown (but fixed) length
             raise Undecidable("string _%d has no single definition" % l)
         if d[0] == "stmt":
             rv = d[3]["rv"]
@@ -309,7 +320,44 @@ class Acct:
             return {k: v * unit.get("", 0) for k, v in n.items()}
         if re.search(r"ToString>::to_string$|From<&str>>::from$|to_owned$|Clone>::clone$", nm) and t["args"]:
             return self.str_len_op(t["args"][0], roots)
+        if re.search(r"string::String as std::ops::Add<&str>>::add$|ops::Add<&str>>::add$", nm) and len(t["args"]) == 2:
+            # `a + b`
+            return ladd(self.str_len_op(t["args"][0], roots), self.str_len_op(t["args"][1], roots))
+        if re.search(r"slice::<impl \[T\]>::concat$|Concat<str>>::concat$", nm) and t["args"]:
+            # `[p1, p2, ..].concat()`: the pieces of an array built in place
+            ops = self.array_ops(t["args"][0])
+            if ops is None:
+                raise Undecidable("`concat` of something other than an array built in place")
+            tot = {}
+            for o in ops:
+                tot = ladd(tot, self.str_len_op(o, roots))
+            return tot
+        if re.search(r"<impl str>::(trim|trim_start|trim_end)$", nm) and t["args"] and getattr(self, "_sym_roots", None) is not None:
+            # a trimmed string has some length of its own (one symbol per local): `line.len() - t.len()`
+            # pieces cancel against it
+            return lin(**{"t#%d" % l: 1})
         raise Undecidable("string produced by `%s`" % nm.split("::")[-1])
+
+    def array_ops(self, op, depth=6):
+        """operands of the array aggregate a slice / array reference operand was built from"""
+        for _ in range(depth):
+            pl = op.get("c") or op.get("m")
+            if pl is None or any(isinstance(x, dict) for x in pl["p"]):
+                return None
+            d = self.whole_def(self.root(pl["l"]))
+            if d is None or d[0] != "stmt":
+                return None
+            rv = d[3]["rv"]
+            if rv["k"] == "agg" and rv.get("agg") == "array":
+                return rv["ops"]
+            if rv["k"] in ("ref", "rawptr"):
+                op = {"c": rv["place"]}
+                continue
+            if rv["k"] in ("use", "cast") and "op" in rv:
+                op = rv["op"]
+                continue
+            return None
+        return None
 
     def range_of(self, op):
         pl = op.get("c") or op.get("m")
@@ -651,10 +699,18 @@ def normaliser_report(ctx, body):
                     rp = sp[0].get("c") or sp[0].get("m")
                     if rp is not None:
                         # the stripped string itself may be a slice of the text
-                        rl = A.follow_ref(rp["l"])
-                        rd = A.whole_def(rl)
-                        if rd and rd[0] == "call" and re.search(r"Index", callee_name(rd[3])) and len(rd[3]["args"]) == 2:
-                            rp = rd[3]["args"][0].get("c") or rd[3]["args"][0].get("m")
+                        for _ in range(3):
+                            rl = A.follow_ref(rp["l"])
+                            rd = A.whole_def(rl)
+                            if rd and rd[0] == "call" and rd[3]["args"] and (
+                                    (re.search(r"Index", callee_name(rd[3])) and len(rd[3]["args"]) == 2) or re.search(r"<impl str>::(trim|trim_start|trim_end)$", callee_name(rd[3]))):
+                                # a slice / a trimmed view of the text is still (part of) the text
+                                nrp = rd[3]["args"][0].get("c") or rd[3]["args"][0].get("m")
+                                if nrp is None:
+                                    break
+                                rp = nrp
+                                continue
+                            break
                         key = A.place_key(rp) if any(isinstance(x, dict) for x in rp["p"]) else A.str_key_local(rp["l"])
             c = A.op_const(t["args"][1])
             dd = A.whole_def(A.follow_ref(pl["l"]))
@@ -691,6 +747,7 @@ def normaliser_report(ctx, body):
     if len(inputs) != 1:
         return [(False, "pieces are cut from %d different strings (%s)" % (len(inputs), inputs))]
     roots[inputs[0]] = "len(text)"
+    A._sym_roots = roots
     L = lin(**{"len(text)": 1})
     try:
         loop_len = None
@@ -758,6 +815,65 @@ def normaliser_report(ctx, body):
         out.append((False, "length accounting stopped: %s" % e))
     except ValueError as e:
         out.append((False, "length accounting stopped: %s" % e))
+    return out
+
+
+def expr_len_report(ctx, body):
+    """[(ok, message)] for a normaliser that *computes* the rewritten text as an expression instead of
+    pushing pieces: `" ".repeat(prefix.len()) + rest`, `[a, "  ", b].concat()`, `s.to_string()`. Every
+    String that reaches the return value (directly or as the payload of `Some`) must have the length of
+    the function's text parameter, as a symbolic identity."""
+    from rules import util
+    b = body
+    A = Acct(ctx, b)
+    rty = b.local_ty(0)
+    if not re.match(r"(std::option::Option<)?std::string::String>?$", rty):
+        return []
+    texts = [i for i in range(1, b.argc + 1) if re.match(r"&'?\w* ?str$", b.local_ty(i))]
+    if len(texts) != 1:
+        return []
+    roots = {"%d:" % texts[0]: "len(text)"}
+    A._sym_roots = roots
+    L = lin(**{"len(text)": 1})
+    out = []
+    slots = util.return_slots(b)
+    seen = 0
+    for bi, j, s in b.assigns():
+        if bi not in A.cfg.reachable or s["lhs"]["l"] not in slots or s["lhs"]["p"]:
+            continue
+        rv = s["rv"]
+        op = None
+        if rv["k"] == "agg" and rv.get("variant") == "Some" and rv["ops"]:
+            op = rv["ops"][0]
+        elif rv["k"] == "agg" and rv.get("variant") == "None":
+            continue
+        elif rv["k"] == "use" and rty.endswith("String"):
+            op = rv["op"]
+        elif rv["k"] == "use":
+            continue            # an Option moved on: its construction is visited where it is built
+        if op is None:
+            continue
+        seen += 1
+        try:
+            A.path_pos = None
+            tot = A.str_len_op(op, roots)
+        except Undecidable as e:
+            out.append((False, "length accounting stopped: %s" % e))
+            continue
+        if tot == L:
+            out.append((True, "the returned text has len(text)"))
+        else:
+            out.append((False, "the returned text has %s bytes, not len(text): byte offsets after the difference no longer map to the source" % lshow(tot)))
+    for bi, t in b.calls():
+        if bi in A.cfg.reachable and t["dest"]["l"] in slots and not t["dest"]["p"] and rty.endswith("String") and not rty.startswith("std::option"):
+            seen += 1
+            try:
+                tot = A.str_len_local(t["dest"]["l"], roots)
+            except Undecidable as e:
+                out.append((False, "length accounting stopped: %s" % e))
+                continue
+            out.append((True, "the returned text has len(text)") if tot == L else
+                       (False, "the returned text has %s bytes, not len(text): byte offsets after the difference no longer map to the source" % lshow(tot)))
     return out
 
 
